@@ -63,6 +63,49 @@ Theorem C09_send_always_enabled : forall s c, closed s = false ->
 Proof. intros s c H. split; [exact (send_enabled s c H)|exact (send_keeps_open s c H)]. Qed.
 Print Assumptions C09_send_always_enabled.
 
+(* The size dimension.  Nothing above has a hypothesis on how much is pending; said outright:
+   (1) the stage has NO capacity -- for every n and every n changes to n DIFFERENT ids (any kinds and
+       values, no validity hypothesis) sent with no receive in between: every Send is taken, all n
+       are held in arrival order, and n receives then deliver exactly these changes, in order,
+       unmerged ("memory proportional to one change for each id that has not been emitted yet", and
+       not a change less: a stage that hands over the oldest before taking more once k ids are
+       pending is not this model for any k);
+   (2) so a backlog of every length n is reachable, by a valid script;
+   (3) and from EVERY open state -- whatever its backlog -- every Send of every further sequence of
+       sends and receives is taken.
+   The tie to the code at sizes no small id alphabet reaches: single-action sequences and public-API
+   bursts that leave 600..2000 (thorough: up to 4000) different ids pending (tags merge:size,
+   api:coll-big), and the source fact KSrc: the goroutine parks nowhere but in a receive from its
+   input or in a select that has such a case (C09Judge.src_receptive). *)
+From SC Require Import Excess.SizeProofs.
+
+Theorem C09_no_capacity_limit : forall cs, NoDup (map cid cs) ->
+  let '(s', os) := m_run m_init (map Send cs) in
+  os = repeat OSent (List.length cs) /\ closed s' = false /\
+  queue s' = map cid cs /\ pending s' = cs /\
+  let '(s'', os') := m_run s' (repeat Recv (List.length cs)) in
+  os' = map OGot cs /\ queue s'' = [] /\ snd (m_step s'' Recv) = ONothing.
+Proof. exact burst_all_held. Qed.
+Print Assumptions C09_no_capacity_limit.
+
+Theorem C09_backlog_of_every_length_reachable : forall n, exists l s os,
+  m_run m_init l = (s, os) /\ closed s = false /\ List.length (queue s) = n /\
+  List.length (pending s) = n /\ no_close l = true /\ valid_script (sent_of l) empty_view = true.
+Proof. exact backlog_of_every_length_reachable. Qed.
+Print Assumptions C09_backlog_of_every_length_reachable.
+
+Theorem C09_sends_taken_whatever_the_backlog : forall n s l, closed s = false -> List.length (queue s) = n ->
+  no_close l = true ->
+  forall k c, nth_error l k = Some (Send c) -> nth_error (snd (m_run s l)) k = Some OSent.
+Proof. intros n s l Ho _ Hc. exact (sends_taken_from_any_state l s Ho Hc). Qed.
+Print Assumptions C09_sends_taken_whatever_the_backlog.
+
+Example C09_no_capacity_limit_nonvacuous :
+  let cs := map add_of (map Z.of_nat (seq 0 700)) in
+  NoDup (map cid cs) /\ List.length (queue (fst (m_run m_init (map Send cs)))) = 700%nat /\
+  snd (m_step (fst (m_run m_init (map Send cs))) (Send (add_of 700))) = OSent.
+Proof. split; [apply seq_ids_nodup|]. vm_compute. auto. Qed.
+
 (* an add followed by a remove cancels out (in any reachable state with nothing pending for the id) *)
 Theorem C09_add_remove_cancels : forall s vr vs a b,
   Inv s vr vs -> msgs s (cid a) = None -> cid b = cid a ->
